@@ -237,7 +237,7 @@ def suite_fps_cli(seed, tier):
             ref, ref_inv = fps_from_smiles(smiles, n_features=64, skip_invalid=True, pack=pack)
             mode = rng.choice(["single", "parts", "max"])
             args = ["fps-from-smiles", str(d / "in.smi"), "-o", str(d / "out"), "--name", "x",
-                    "--n-features", "64", "--skip-invalid", "--no-verbose", "--ps", str(rng.choice([1, 2]))]
+                    "--n-features", "64", "--skip-invalid", "--no-verbose", "--ps", str(rng.choice([1, 2] if tier == "quick" else [1, 2, 3, 8]))]
             args += ["-p"] if pack else ["-P"]
             if mode == "parts":
                 args += ["-n", str(rng.randint(2, 4))]
@@ -274,19 +274,13 @@ def suite_fps_cli(seed, tier):
 
 
 def search_c16(seed, tier, failures):
-    for kind, d in failures:
-        if isinstance(d, dict) and "what" in d and "model differs" not in d["what"] and "Model/" not in d["what"]:
-            return {"violation": d["what"], **{k: v for k, v in d.items() if k not in ("what", "suite")}}
-    for s in (suite_file_seq, suite_batches, suite_fps_cli):
-        rr = s(seed + 1, "quick")
-        for d in rr.bad:
-            if "model differs" not in d["what"] and "Model/" not in d["what"]:
-                return {"violation": d["what"], **{k: v for k, v in d.items() if k not in ("what", "suite")}}
-    return None
+    import replay_util
+    return replay_util.make_search([suite_file_seq, suite_batches, suite_fps_cli])(seed, tier, failures)
 
 
 def replay_c16(payload):
-    return search_c16(payload.get("seed", 1) - 1, "quick", []) is None
+    import replay_util
+    return replay_util.make_replay([suite_file_seq, suite_batches, suite_fps_cli])(payload)
 
 
 def finding_multi_file_skip_invalid():
